@@ -49,7 +49,7 @@ def param_spec(fi: FuncInfo, name: str, default: ast.expr | None, overrides: dic
 
 
 def run_function(fi: FuncInfo, ci: ClassInfo | None = None, overrides: dict | None = None, r: Repo | None = None,
-                 undecorated=False, self_fresh=False, limit=None, pre=None, budget_s=None) -> Run:
+                 undecorated=False, self_fresh=False, limit=None, pre=None, budget_s=None, inline_self=False) -> Run:
     r = r or repo()
     ex = Exec(r, tags(r))
     budget_s = budget_s or float(os.environ.get("PYVC_FUNC_BUDGET", "120"))
@@ -117,7 +117,8 @@ def run_function(fi: FuncInfo, ci: ClassInfo | None = None, overrides: dict | No
                     ex.st.pc.append(ex.truth(v))
                 except Exception as e:      # a fact that cannot be evaluated is reported, not ignored
                     ex.note(f"fact-not-evaluated:{k.short}:{e!r}")
-    if fi.name != "get_sql":
+    ex.reads_global.clear()        # reads made while evaluating the invariant facts do not count
+    if fi.name != "get_sql" and not inline_self:
         ex.contract_self_methods = {"get_sql"}
     try:
         outs = ex.explore(go, limit=limit)
